@@ -11,3 +11,10 @@ func VerifReencodePathCount() int64 { return reencodePathCounter.Load() }
 
 func VerifSetDisableWriteCopy(v bool)     { disableWriteCopy = v }
 func VerifSetDisableWriteReencode(v bool) { disableWriteReencode = v }
+
+// VerifRowRange exposes the row-range views which the merge planner builds
+// over partially overlapping row groups (property C08 names them; they are
+// otherwise only reachable through merges of >= 1024-row stretches).
+func VerifRowRange(base RowGroup, off, length int64) RowGroup {
+	return newRowRangeRowGroup(base, off, length)
+}
